@@ -243,10 +243,20 @@ def thread_stress(n_threads=8, rounds=60):
         st_ = statuses.Status(code, cmd)
         return st_.status_type, int(st_)
 
+    def op_fragments(k, times):
+        # what every provider thread does all the time: encode the single-PDV P-DATA-TF PDUs of a message, one by one
+        obj = g.build({'t': 4, 'r': 0, 'pdvs': [{'id': 1 + 2 * k, 'data': patterned(40 + 333 * k, k)}]})
+        first = obj.encode()
+        for _ in range(times):
+            if obj.encode() != first:
+                return 'differs'
+        return first
+
     ops = []
     for k in range(6):
         pdvs = [{'id': 1 + 2 * j, 'data': patterned(3000 + 500 * k + j, k + j)} for j in range(4)]
         ops.append(('pdu', op_pdu, ({'t': 4, 'r': 0, 'pdvs': pdvs},)))
+        ops.append(('pdata-fragment', op_fragments, (k, 150)))
     ops.append(('pdu', op_pdu, (convs.RQ_SPEC,)))
     ops.append(('pdu', op_pdu, (convs.AC_SPEC,)))
     for k, cf in enumerate((0x0001, 0x8020, 0x0020, 0x8021, 0x0130, 0x0110)):
